@@ -421,4 +421,32 @@ def pdu (dflt : Enc) (m : Msg) : Except Exc (List Nat × Option Enc) :=
     | .ok body => (packHeader (16 + body.length) m).map fun h => (h ++ body, none)
   | _ => (packHeader 16 m).map fun h => (h, none)
 
+/-! ### `pdu()` called again on the same object
+
+`SubmitSm.pdu()` changes the object: `encoding` becomes what `smpp_encode` chose, and `_encoded_message` keeps the
+octets when they travel in short_message (it is cleared when they went to message_payload).  A message that is
+serialised twice (sent again after a failed attempt, logged by a hook) takes the second path through `pdu()`. -/
+
+/-- `_encoded_message` after a successful `pdu()` -/
+def smEncodedAfter (dflt : Enc) (m : Sm) : List Nat :=
+  if m.encoded.isEmpty then
+    match smppEncode dflt m (if m.shortMessage.isEmpty then m.messagePayload else m.shortMessage) with
+    | .ok (enc, _) => if enc.length > 254 ∨ ¬ m.messagePayload.isEmpty then [] else enc
+    | .error _ => []
+  else m.encoded
+
+/-- the object after a successful `pdu()` that left the encoding `e` -/
+def smAfter (dflt : Enc) (m : Sm) (e : Option Enc) : Sm :=
+  { m with encoding := e, encoded := smEncodedAfter dflt m }
+
+/-- `m.pdu(); m.pdu()` — the result of the second call -/
+def pduAgain (dflt : Enc) (m : Msg) : Except Exc (List Nat × Option Enc) :=
+  match pdu dflt m with
+  | .error e => .error e
+  | .ok (_, e) =>
+    match m with
+    | .submitSm s => pdu dflt (.submitSm (smAfter dflt s e))
+    | .deliverSm s => pdu dflt (.deliverSm (smAfter dflt s e))
+    | _ => pdu dflt m
+
 end SmppVerif.Pdu
